@@ -37,7 +37,7 @@ class C09(Check):
     per_run_timeout = 240
     expected_probes = ["sim:sv", "sim:dm", "entry:simulate", "entry:run", "entry:steps", "feat:channel",
                        "feat:keyed-channel", "noise:constant", "noise:insertion", "noise:gate-like",
-                       "noise:with_noise-circuit", "noise:thermal", "noise:unitary-gate", "noise:device", "entry:sweep", "entry:mux-fdm", "feat:composite-noisy-gate", "feat:pauli-measure", "protocol:apply_mixture-checked", "protocol:apply_channel-checked", "order:spectator", "init:density-matrix", "init:vector", "draw:uniform-kraus", "draw:choice", "convert-checked",
+                       "noise:with_noise-circuit", "noise:thermal", "noise:unitary-gate", "noise:device", "entry:sweep", "entry:mux-fdm", "feat:composite-noisy-gate", "feat:pauli-measure", "protocol:apply_mixture-checked", "protocol:custom-apply-channel-checked", "protocol:apply_channel-checked", "order:spectator", "init:density-matrix", "init:vector", "draw:uniform-kraus", "draw:choice", "convert-checked",
                        "feat:reset", "boundary:fallback-branch"]
 
     def setup(self) -> None:
@@ -160,6 +160,63 @@ class C09(Check):
             out_sv = None
         _ = out_sv
         ctx.probe("protocol:custom-gate-mixture-checked")
+
+    def _custom_apply_channel_check(self, cirq, tape, ctx) -> None:
+        """A user-defined gate that only knows how to apply itself to a density tensor (_apply_channel_): a
+        coherent over-rotation followed by damping.  cirq.kraus / superoperator / Choi derived from it and the
+        density-matrix simulator must describe the one channel rho -> sum_i (K_i U) rho (K_i U)^dag."""
+        theta = math.pi / 8 * [1, 3, 5, -2, 7][tape.draw(5, "theta")]
+        phi = [0.0, 0.25, -0.5, 0.75][tape.draw(4, "phi")]
+        gamma = [0.25, 0.5, 0.75][tape.draw(3, "gamma")]
+        u = cirq.unitary(cirq.Z ** phi) @ cirq.unitary(cirq.rx(theta))
+        ks = [kk @ u for kk in (np.array([[1, 0], [0, math.sqrt(1 - gamma)]], dtype=complex),
+                                np.array([[0, math.sqrt(gamma)], [0, 0]], dtype=complex))]
+
+        class OnlyApplyChannel(cirq.Gate):
+            def _num_qubits_(self):
+                return 1
+
+            def _apply_channel_(self, args):
+                (la,), (ra,) = args.left_axes, args.right_axes
+                out = args.out_buffer
+                out[...] = 0
+                for kk in ks:
+                    a = np.moveaxis(np.tensordot(kk, args.target_tensor, axes=(1, la)), 0, la)
+                    a = np.moveaxis(np.tensordot(np.conj(kk), a, axes=(1, ra)), 0, ra)
+                    out += a
+                return out
+
+            def __repr__(self):
+                return f"OnlyApplyChannel(theta={theta:.4f}, phi={phi}, gamma={gamma})"
+
+        g = OnlyApplyChannel()
+        want_super = sum(np.kron(kk, np.conj(kk)) for kk in ks)
+        got = cirq.kraus(g)
+        got_super = sum(np.kron(kk, np.conj(kk)) for kk in got)
+        if not np.allclose(got_super, want_super, atol=1e-7):
+            raise Violation(f"{P}-CONVERT", f"cirq.kraus({g!r}), derived from its _apply_channel_, describes a different "
+                                            f"channel: superoperator off by {float(np.max(np.abs(got_super - want_super))):.3e}")
+        q = cirq.LineQubit(0)
+        for name, fn, want in (("kraus_to_superoperator", lambda: cirq.kraus_to_superoperator(cirq.kraus(g)), want_super),
+                               ("operation_to_superoperator", lambda: cirq.operation_to_superoperator(g.on(q)), want_super),
+                               ("operation_to_choi", lambda: cirq.operation_to_choi(g.on(q)),
+                                cirq.kraus_to_choi(ks))):
+            val = fn()
+            if not np.allclose(val, want, atol=1e-7):
+                raise Violation(f"{P}-CONVERT", f"cirq.{name} of {g!r} is off by {float(np.max(np.abs(val - want))):.3e}")
+        # the simulator applies the gate through _apply_channel_ itself
+        q1 = cirq.LineQubit(1)
+        pre = cirq.Circuit(cirq.ry(0.7)(q), cirq.rx(1.1)(q1), cirq.CZ(q, q1) ** 0.5)
+        target = [q, q1][tape.draw(2, "on")]
+        rho0 = cirq.final_density_matrix(pre, qubit_order=[q, q1], dtype=np.complex128)
+        full = [np.kron(kk, np.eye(2)) if target == q else np.kron(np.eye(2), kk) for kk in ks]
+        want_rho = sum(f @ rho0 @ f.conj().T for f in full)
+        sim = cirq.DensityMatrixSimulator(dtype=np.complex128, split_untangled_states=bool(tape.draw(2, "split")))
+        got_rho = sim.simulate(pre + cirq.Circuit(g.on(target)), qubit_order=[q, q1]).final_density_matrix
+        if not np.allclose(got_rho, want_rho, atol=1e-6):
+            raise Violation(f"{P}-STATE", f"DensityMatrixSimulator applying {g!r} on {target}: off by "
+                                          f"{float(np.max(np.abs(got_rho - want_rho))):.3e}")
+        ctx.probe("protocol:custom-apply-channel-checked")
 
     def run_one(self, tape, ctx: Ctx) -> None:
         cirq = self.cirq
@@ -285,6 +342,8 @@ class C09(Check):
                 self._convert_check(cirq, op, ctx)
         if tape.chance(1, 4, "custom-mixture?"):
             self._custom_mixture_check(cirq, tape, ctx)
+        if tape.chance(1, 5, "custom-apply-channel?"):
+            self._custom_apply_channel_check(cirq, tape, ctx)
         entry = ["simulate", "steps", "run", "sweep", "mux-fdm"][tape.weighted([5, 2, 3, 2, 1], "entry")]
         if entry == "mux-fdm" and (with_noise_circuit or g.key_dims or g.channel_keys or g.features & {"reset"}):
             entry = "simulate"      # the mux helper is exercised on measurement-free circuits
